@@ -21,7 +21,7 @@ const Prelude = `(set-option :produce-models true)
 (declare-sort Str 0)
 (declare-fun len (Str) Int)
 (declare-fun at (Str Int) Int)
-(assert (forall ((s Str)) (! (>= (len s) 0) :pattern ((len s)))))
+(assert (forall ((s Str)) (! (and (>= (len s) 0) (<= (len s) 9223372036854775807)) :pattern ((len s)))))
 (assert (forall ((s Str) (i Int)) (! (and (<= 0 (at s i)) (<= (at s i) 255)) :pattern ((at s i)))))
 (declare-fun streq (Str Str) Bool)
 (declare-fun strdiff (Str Str) Int)
@@ -39,9 +39,18 @@ const Prelude = `(set-option :produce-models true)
 (assert (= (len emptyStr) 0))
 (assert (forall ((s Str)) (! (=> (= (len s) 0) (= s emptyStr)) :pattern ((len s)))))
 (declare-fun strlt (Str Str) Bool)
+; hasPrefix(s, p): p is a prefix of s (kept as a predicate so that contracts stay quantifier-free)
+(declare-fun hasPrefix (Str Str) Bool)
+(declare-fun pfxdiff (Str Str) Int)
+(assert (forall ((s Str) (p Str)) (! (=> (hasPrefix s p) (<= (len p) (len s))) :pattern ((hasPrefix s p)))))
+(assert (forall ((s Str) (p Str) (i Int)) (! (=> (and (hasPrefix s p) (<= 0 i) (< i (len p))) (= (at s i) (at p i))) :pattern ((hasPrefix s p) (at s i)) :pattern ((hasPrefix s p) (at p i)))))
+(assert (forall ((s Str) (p Str)) (! (or (hasPrefix s p) (> (len p) (len s)) (and (<= 0 (pfxdiff s p)) (< (pfxdiff s p) (len p)) (not (= (at s (pfxdiff s p)) (at p (pfxdiff s p)))))) :pattern ((hasPrefix s p)))))
 ; ---- slices ---------------------------------------------------------------------
 (declare-datatypes ((Slice 0)) (((mkslice (sbase Int) (soff Int) (slen Int) (scap Int)))))
 (define-fun nilSlice () Slice (mkslice 0 0 0 0))
+; idx(off, i) = off + i, kept as a function symbol so that quantifier patterns over slice elements match structurally
+(declare-fun idx (Int Int) Int)
+(assert (forall ((a Int) (b Int)) (! (= (idx a b) (+ a b)) :pattern ((idx a b)))))
 ; ---- interfaces -----------------------------------------------------------------
 (declare-sort Iface 0)
 (declare-fun typeOf (Iface) Int)
